@@ -723,6 +723,15 @@ impl Xot {
                         value,
                         span: _,
                     } => {
+                        if let Some(colon) =
+                            leading_colon(tokenizer.stream().span().as_str(), prefix, local)
+                        {
+                            let pos = tokenizer.stream().gen_text_pos_from(colon);
+                            return Err(ParseError::XmlParser(
+                                xmlparser::Error::UnknownToken(pos),
+                                colon,
+                            ));
+                        }
                         if prefix.as_str() == "xmlns" {
                             // a namespace declaration is an attribute: its value
                             // can contain references and is normalized
@@ -767,6 +776,15 @@ impl Xot {
                         local,
                         span: _,
                     } => {
+                        if let Some(colon) =
+                            leading_colon(tokenizer.stream().span().as_str(), prefix, local)
+                        {
+                            let pos = tokenizer.stream().gen_text_pos_from(colon);
+                            return Err(ParseError::XmlParser(
+                                xmlparser::Error::UnknownToken(pos),
+                                colon,
+                            ));
+                        }
                         builder.element(prefix, local);
                     }
 
@@ -784,6 +802,17 @@ impl Xot {
                                 span_info.add_attribute_spans(node_id, attribute_spans);
                             }
                             Close(prefix, local) => {
+                                if let Some(colon) = leading_colon(
+                                    tokenizer.stream().span().as_str(),
+                                    prefix,
+                                    local,
+                                ) {
+                                    let pos = tokenizer.stream().gen_text_pos_from(colon);
+                                    return Err(ParseError::XmlParser(
+                                        xmlparser::Error::UnknownToken(pos),
+                                        colon,
+                                    ));
+                                }
                                 let node_id = builder.close_element(prefix, local, self)?;
                                 span_info
                                     .add(SpanInfoKey::ElementEnd(node_id.into()), end_span.into());
@@ -1022,6 +1051,17 @@ fn declaration_version(text: &str, content: std::ops::Range<usize>) -> Option<St
     }
     if s.at_end() {
         version
+    } else {
+        None
+    }
+}
+
+/// A qualified name the tokenizer split into an empty prefix and a local
+/// part although it is written with a colon in front (`:a`): that is no
+/// QName (Namespaces in XML 1.0).
+fn leading_colon(text: &str, prefix: StrSpan<'_>, local: StrSpan<'_>) -> Option<usize> {
+    if prefix.is_empty() && local.start() > 0 && text.as_bytes()[local.start() - 1] == b':' {
+        Some(local.start() - 1)
     } else {
         None
     }
